@@ -230,7 +230,17 @@ impl Table {
         // Handy alias to the block size as a `usize`
         let block_data_size: usize = block_handle.get_size() as usize;
         // The total block size is the size on disk plus the descriptor size
-        let total_block_size: usize = block_data_size + BLOCK_DESCRIPTOR_SIZE_BYTES;
+        let total_block_size: usize = block_data_size.saturating_add(BLOCK_DESCRIPTOR_SIZE_BYTES);
+
+        // A block handle comes from the footer or from an index entry. Make sure that it describes a
+        // region of the file before a buffer of that size is allocated for it.
+        let block_end_offset = (block_handle.get_offset() as usize).saturating_add(total_block_size);
+        if (block_end_offset as u64) > file.len()? {
+            return Err(ReadError::FailedToParse(
+                "Failed to parse the block. The block handle points outside of the file.".to_string(),
+            ));
+        }
+
         let mut raw_block_data: Vec<u8> = vec![0; total_block_size];
         let bytes_read = file.read_from(&mut raw_block_data, block_handle.get_offset() as usize)?;
         if bytes_read != total_block_size {
